@@ -269,6 +269,17 @@ func build() []Val {
 		extra("x_mslice_seqkey", false, func() any {
 			return yaml.MapSlice{{Key: []any{1}, Value: "seq"}, {Key: map[string]any{"a": 1}, Value: "map"}, {Key: "a", Value: 1}}
 		}),
+		// times with unusual zones and years; date-like strings with zone abbreviations that are, and are not, names of the zone database
+		extra("x_time_pst0", false, func() any { return time.Date(2017, 2, 8, 19, 0, 0, 0, time.FixedZone("PST", 0)) }),
+		extra("x_time_noname", false, func() any { return time.Date(2017, 2, 8, 19, 0, 0, 5, time.FixedZone("", -7*3600)) }),
+		extra("x_time_far", false, func() any { return time.Unix(1<<40, 999999999).UTC() }),
+		extra("x_time_zero", false, func() any { return time.Time{} }),
+		extra("x_ptime", false, func() any { t := time.Date(2001, 2, 3, 4, 5, 6, 7, time.UTC); return &t }),
+		extra("s_date_pst", false, func() any { return "2017-02-08 19:00:00 PST" }),
+		extra("s_date_xyz", false, func() any { return "Wed, 08 Feb 2017 19:00:00 XYZ" }),
+		extra("s_date_mst", false, func() any { return "Mon Jan 2 15:04:05 MST 2006" }),
+		extra("s_date_badoff", false, func() any { return "2017-02-08T19:00:00+99:99" }),
+		extra("s_date_zeros", false, func() any { return "0000-00-00 00:00:00" }),
 		extra("x_page_a", false, pageA),
 		extra("x_page_b", false, pageB),
 		extra("x_embed_nil", false, func() any { return Outer{Y: 1} }),
